@@ -226,7 +226,7 @@ def check(prog, res, tier):
             for first, last, s0, s1, head in iterations(p, func=nfi.short):
                 if not isinstance(head.node, ast.For):
                     continue
-                sets = [e for e in p.events if e.kind == 'setitem' and e.func == nfi.short and first < e.seq < last]
+                sets = [e for e in p.events if e.kind == 'setitem' and e.under(nfi.short) and first < e.seq < last]
                 li = [e for e in p.events if e.kind == 'loop-iter' and e.node is head.node and first <= e.seq < last]
                 col = li[-1].data.get('elem') if li else None
                 if len(sets) != 1:
@@ -298,7 +298,7 @@ def check(prog, res, tier):
             ok = trailer_seen(p)
             if not ok and mode == 'inv':
                 # left through a loop condition on a flag that is only ever set after the trailer was seen
-                heads = [e for e in p.events if e.kind == 'loop-head' and e.func == ifi.short]
+                heads = [e for e in p.events if e.kind == 'loop-head' and e.under(ifi.short)]
                 for h in heads:
                     for k, g in h.data['gen'].items():
                         if k in flags and isinstance(g, SymV) and p.binds.get(('truth', g.name)) is True:
@@ -315,7 +315,7 @@ def check(prog, res, tier):
         """index rows: table_index[row[243:246]] = row[19:27] for rows whose [11:19] is IP0000T1"""
         fails = []
         for e in p.events:
-            if e.kind == 'setitem' and e.func == ifi.short and isinstance(e.data['obj'], DictV) and e.data['obj'].desc is None:
+            if e.kind == 'setitem' and e.under(ifi.short) and isinstance(e.data['obj'], DictV) and e.data['obj'].desc is None:
                 k, v = e.data['key'], e.data['value']
                 st = p.store
 
